@@ -112,4 +112,43 @@ Section Hyrax.
     if negb (geqb (g0 keylen (vdot r (hp_z pf)) (hp_zb pf)) (gadd (gscale c (hp_com_eval pf)) (hp_com_b pf))) then Ok false else
     do cz <- ped keylen (hp_z pf) (hp_zd pf);
     Ok (geqb cz (gadd (gscale c (gmsm rows l)) (hp_com_d pf))).
+  (* ---------------- open / check over a list of polynomials at one point ---------------- *)
+  (* open: the point must have an even number of coordinates; one challenge and dim + 3 RNG draws per polynomial *)
+  Fixpoint h_open_loop (keylen : nat) (point : list F) (sts : list HState) (otape chal : list F)
+    : res (list HProof * list F * list F) :=
+    match sts with
+    | [] => Ok ([], otape, chal)
+    | st :: sts' =>
+      match chal with
+      | [] => Err EOther
+      | c :: chal' =>
+        do r <- h_open1 keylen point st otape c;
+        let '(pf, k) := r in
+        do rest <- h_open_loop keylen point sts' (skipn k otape) chal';
+        let '(pfs, ot, ch) := rest in
+        Ok (pf :: pfs, ot, ch)
+      end
+    end.
+  Definition h_open_list (keylen : nat) (point : list F) (sts : list HState) (otape chal : list F)
+    : res (list HProof * list F * list F) :=
+    if Nat.odd (length point) then Err EInvalidNumberOfVariables else h_open_loop keylen point sts otape chal.
+
+  (* check: shape refusals, then one challenge per triple; the first failing equation ends the loop *)
+  Fixpoint h_check_loop (keylen : nat) (point : list F) (rowsl : list (list gel)) (vs : list F) (pfs : list HProof) (chal : list F)
+    : res (bool * list F) :=
+    match rowsl, vs, pfs with
+    | rows :: rl, v :: vl, pf :: pl =>
+      match chal with
+      | [] => Err EOther
+      | c :: chal' =>
+        do b <- h_check1 keylen point rows v pf c;
+        if b then h_check_loop keylen point rl vl pl chal' else Ok (false, chal')
+      end
+    | _, _, _ => Ok (true, chal)
+    end.
+  Definition h_check_list (keylen : nat) (point : list F) (rowsl : list (list gel)) (vs : list F) (pfs : list HProof) (chal : list F)
+    : res (bool * list F) :=
+    if Nat.odd (length point) then Err EInvalidNumberOfVariables
+    else if negb (length rowsl =? length pfs)%nat || negb (length vs =? length pfs)%nat then Err EIncorrectInputLength
+    else h_check_loop keylen point rowsl vs pfs chal.
 End Hyrax.
